@@ -31,7 +31,7 @@ def plan(tier):
 
 
 def n_cases(tier):
-    return 20000 if tier == 'thorough' else 700
+    return 20000 if tier == 'thorough' else 1500
 
 
 ASYNC_HOLDERS = ['buffer', 'delay', 'rate_limit', 'map_async', 'timed_window', 'timed_window_unique',
@@ -107,6 +107,7 @@ def check_sync(case, counters, sets):
     if res.emit_errors:
         i, exc = res.emit_errors[0]
         add('C05:emit-raised:%s' % type(exc).__name__, 'emit #%d raised %r' % (i, exc))
+        res.n_cmp = res.n_held = 0
         return res, viols
     uid2d = {ref.uid: d for did, (j, ref, d) in res.refs.items()}
     uid2ref = {ref.uid: ref for did, (j, ref, d) in res.refs.items()}
